@@ -30,3 +30,25 @@ Definition c13_required : list string :=
 Theorem generated_schemas_cover_c13 :
   forallb (fun n => match lookup n gen_schemas with Some _ => true | None => false end) c13_required = true.
 Proof. vm_compute. reflexivity. Qed.
+
+(* every RFC schema is one on which DER decoding is unambiguous (tag numbers below 31; an OPTIONAL field is
+   distinguishable from what may follow it) — so the codec's round-trip theorem applies to it *)
+From Gokrb5.model Require Import DER DERCodec.
+From Gokrb5.proofs Require Import SchemaRefineProofs.
+Theorem rfc_schemas_unambiguous : forallb (fun e : string * ty => schema_ok (snd e)) rfc_schemas = true.
+Proof. vm_compute. reflexivity. Qed.
+Theorem generated_schemas_unambiguous : forallb (fun e : string * ty => schema_ok (snd e)) gen_schemas = true.
+Proof. vm_compute. reflexivity. Qed.
+
+(* "an independent implementation decodes it to the same field values": every encoding along a generated wire
+   schema is decoded by the RFC schema of the same name to the value that was encoded *)
+Theorem rfc_decoder_reads_generated :
+  forall name g v b, In (name, g) gen_schemas -> encode g v = Some b -> zlen b < 2 ^ 32 ->
+  exists r, lookup name rfc_schemas = Some r /\ decode_top r b = Some v.
+Proof. exact (refinement_gives_interop gen_schemas rfc_schemas generated_schemas_refine_rfc rfc_schemas_unambiguous). Qed.
+Print Assumptions rfc_decoder_reads_generated.
+
+(* model/Msg.v (Ticket.Marshal, MarshalTicketSequence) is stated over the RFC schemas: the generated ones are
+   these very terms, so its theorems speak about the code's wire format *)
+Theorem generated_ticket_is_rfc_ticket : gen_Ticket = rfc_Ticket /\ gen_EncTicketPart = rfc_EncTicketPart.
+Proof. split; reflexivity. Qed.
